@@ -249,7 +249,82 @@ class Gradient(Contract):
         yield Case("", make_env, check)
 
     def apply(self, ex, args, kw, node):
-        raise U("gradient as a callee", node)
+        """gradient(p) at a call site: the postcondition proved above for an arbitrary slice d, for all slices; the
+        indeterminate tuple of the result is the operand's when the `retain_names` option is in force at the call (N1)."""
+        from engine.polymodel import prepend, at0
+        from engine.optmodel import ovbool, okey
+        from contracts.option import get_state
+        P = args[0] if args else kw.get("poly")
+        if not isinstance(P, Poly) or len(args) + len(kw) != 1:
+            raise U("gradient of this operand at a call site", node)
+        ctx = ex.ctx
+        rn = ovbool(get_state(ex).cur.val[okey("retain_names")])
+        ctx.option_atoms.add("retain_names")
+        r = Poly(ctx, ctx.fresh("grad"), shape=prepend(P.D, P.shape), region=Region("fresh", "gradient"))
+        r.owndata = z3.BoolVal(True)
+        ctx.assume(r.wf(ctx))
+        ctx.assume(ctx.forall_range(0, r.N, lambda t: keyok(r.row(t), r.D)))
+        d = z3.Int(ctx.fresh("d"))
+        i = z3.Const(ctx.fresh("i"), Idx)
+        ctx.assume(z3.ForAll([d, i], z3.Implies(z3.And(0 <= d, d < P.D, inshape(i, P.shape)),
+                                                r.val(at0(d, i)) == pdiff(P.val(i), nat(P.names, d))), patterns=[r.val(at0(d, i))]))
+        ctx.assume(z3.Implies(rn, z3.And(r.names == P.names, r.D == P.D)))
+        r.gradient_of = (P, rn)
+        return r
 
 
-CONTRACTS = [Derivative(), Gradient()]
+class Hessian(Contract):
+    """hessian(p): gradient of the gradient, both taken while `retain_names=True` is in force (so that the inner gradient keeps
+    every indeterminate for the outer one to differentiate by), and the caller's option set back in place afterwards."""
+    name = "numpoly.hessian"
+    relpath = "numpoly/poly_function/derivative.py"
+    func = "hessian"
+    properties = ("C06", "C14", "C15")
+    assumptions = ("contract of gradient (proved for an arbitrary slice; used for all slices)",
+                   "N1: with retain_names=True the gradient has the operand's indeterminate tuple (its slices are aligned with the "
+                   "operand by derivative, concatenate keeps the aligned names when nothing is pruned) - assumed, checked by the "
+                   "bounded C06 clauses",
+                   "contract of global_options as a context manager (proved: C14)")
+
+    def cases(self):
+        def make_env(ex):
+            from contracts.option import get_state
+            P = own_poly(ex, "poly", allocation=False)
+            for a in extra_shape_axioms(ex.ctx):
+                ex.ctx.assume(a)
+            ex.P = P
+            ex.st = get_state(ex)
+            return {"poly": P}
+
+        def check(out):
+            from engine.polymodel import prepend, at0
+            ex, ctx = out.ex, out.ctx
+            P = ex.P
+            ex.oblige(f"raises.nothing[{out.exc}:{out.value}]" if out.kind == "raise" else "raises.nothing", z3.BoolVal(out.kind == "return"), "post")
+            ex.oblige("post.option_set_of_the_caller_restored", ex.st.unchanged(ctx), "post",
+                      note="C14/C15: hessian changes an option for its own computation only")
+            if out.kind != "return":
+                return
+            r = out.value
+            g2 = getattr(r, "gradient_of", None)
+            g1 = getattr(g2[0], "gradient_of", None) if g2 else None
+            ok = g1 is not None and g1[0] is P
+            ex.oblige("post.gradient_of_the_gradient_of_the_operand", z3.BoolVal(ok), "post")
+            if not ok:
+                return
+            ex.oblige("post.inner_gradient_taken_with_retain_names", g1[1], "post",
+                      note="otherwise indeterminates that drop out of the first derivatives are lost to the second differentiation")
+            ex.oblige("post.outer_gradient_taken_with_retain_names", g2[1], "post")
+            ex.oblige("post.shape_is_D_D_plus_operand_shape", r.shape == prepend(P.D, prepend(P.D, P.shape)), "post")
+            d1, d2 = ctx.int("d1"), ctx.int("d2")
+            ctx.assume(z3.And(0 <= d1, d1 < P.D, 0 <= d2, d2 < P.D))
+            ex.oblige("post.value_second_partials_in_indeterminate_order", ctx.forall_idx(
+                lambda i: r.val(at0(d1, at0(d2, i))) == pdiff(pdiff(P.val(i), nat(P.names, d2)), nat(P.names, d1)), P.shape), "post",
+                note="entry (d1, d2) is the second partial derivative by the d2-th and then the d1-th indeterminate")
+        yield Case("", make_env, check)
+
+    def apply(self, ex, args, kw, node):
+        raise U("hessian as a callee", node)
+
+
+CONTRACTS = [Derivative(), Gradient(), Hessian()]
